@@ -53,3 +53,32 @@ def default_replay(ctx, path):
     p = json.load(open(path))
     print(json.dumps(p, indent=1)[:4000])
     return 1
+
+
+class HangDetected(BaseException):
+    pass
+
+
+class time_limit:
+    """Raise HangDetected in the main thread if the block runs longer than `seconds` (real time); nests inside the check's own alarm."""
+
+    def __init__(self, seconds):
+        self.seconds = seconds
+
+    def __enter__(self):
+        import signal
+
+        def handler(signum, frame):
+            raise HangDetected()
+        self.old_handler = signal.signal(signal.SIGALRM, handler)
+        self.old_timer = signal.setitimer(signal.ITIMER_REAL, self.seconds)
+        return self
+
+    def __exit__(self, *a):
+        import signal
+        signal.setitimer(signal.ITIMER_REAL, 0)
+        signal.signal(signal.SIGALRM, self.old_handler)
+        remaining = self.old_timer[0]
+        if remaining > 0:
+            signal.setitimer(signal.ITIMER_REAL, max(remaining - self.seconds, 1.0))
+        return False
